@@ -50,7 +50,8 @@ fn gen_momentum(r: &mut SimRng, asset: usize, id_start: u32, corner: bool, heavy
         p_cancel: prob(r, corner),
         trade_vol: r.range(1, 100) as u32,
         decay: *r.pick(&[1.0f64, 0.5, 0.9, 0.1, 0.05]),
-        demand: (n as f64) * *r.pick(&[0.5f64, 1.0, 5.0, 50.0]),
+        // (demand 0: the documented trade probability is exactly 0 whatever the momentum)
+        demand: if corner && r.chance(0.15) { 0.0 } else { (n as f64) * *r.pick(&[0.5f64, 1.0, 5.0, 50.0]) },
         scale: *r.pick(&[0.01f64, 0.1, 0.5, 1.0]),
         order_ratio: *r.pick(&[0.0f64, 0.5, 1.0, 2.0]),
         mu: (r.range(0, 40) as f64) / 10.0,
